@@ -23,6 +23,7 @@ TIERS = {
 }
 
 TOPICS = ('a', 'b', 'c', 'd', 'e', 'f', 'g', 'h')
+ROS8 = ('/cmd_vel', 'ns/topic', '~priv', '/a/b2', 'odom_1', '/robot_0/scan', 'Topic', 'cmd_vel')
 BOUNDS = (None, None, 0, 1, 50, 100, 250, 1000, 2500, 0.5, 100.5, 1500, 70, 300, 33.3, 16.7, 1.5)
 
 ###############################################################################
@@ -86,10 +87,10 @@ def _pred(sim, visible, depth=0):
 
 
 class PropGen12:
-    def __init__(self, sim):
+    def __init__(self, sim, topics=TOPICS):
         self.sim = sim
         self.acount = 0
-        self.free = list(TOPICS)
+        self.free = list(topics)
         self.used = []
 
     def take_topics(self, n):
@@ -287,14 +288,14 @@ def payload(sim):
     return {'x': Fraction(sim.choose('px', 3)), 'y': Fraction(sim.choose('py', 3)), 'ok': sim.coin('pok')}
 
 
-def simulate(sim, pdesc, cfg, on_deliver, extra_topic=None):
+def simulate(sim, pdesc, cfg, on_deliver, extra_topic=None, topics=TOPICS):
     """Build the system for this property and run it."""
     scope, act, term = pdesc['scope']
     pk, trig, beh, bound = pdesc['pattern']
     used = list(dict.fromkeys(topics_of(act) + topics_of(term) + topics_of(trig) + topics_of(beh)))
     if extra_topic and extra_topic not in used:
         used.append(extra_topic)
-    extra = [t for t in TOPICS if t not in used]
+    extra = [t for t in topics if t not in used]
     # swarm: which fault kinds are enabled in this run, and how hard
     fc = {
         'drop': sim.pick('f_drop', (0, 0, 0.1, 0.3)),
@@ -482,14 +483,15 @@ def run_one(seed, cfg, stats):
     def count(k, n=1):
         stats[k] = stats.get(k, 0) + n
 
-    pdesc = PropGen12(sim).prop()
+    topics = ROS8 if sim.coin('rostopics', 0.3) else TOPICS
+    pdesc = PropGen12(sim, topics).prop()
     text = gen.render_property(pdesc)
     shape = (pdesc['scope'][0], pdesc['pattern'][0], len(topics_of(pdesc['pattern'][1])), len(topics_of(pdesc['pattern'][2])),
              len(topics_of(pdesc['scope'][2])), pdesc['pattern'][3] is not None)
     renest = sim.coin('renest', 0.25)
     edit = None
     if sim.coin('edit', 0.2):
-        spare = [t for t in TOPICS if t not in topics_of(pdesc['scope'][1]) + topics_of(pdesc['scope'][2]) + topics_of(pdesc['pattern'][1]) + topics_of(pdesc['pattern'][2])]
+        spare = [t for t in topics if t not in topics_of(pdesc['scope'][1]) + topics_of(pdesc['scope'][2]) + topics_of(pdesc['pattern'][1]) + topics_of(pdesc['pattern'][2])]
         if spare:
             edit = {'topic': sim.pick('edit_topic', spare), 'pred': sim.pick('edit_pred', (None, '{ x > 0 }', '{ ok }', '{ y in {0, 1} }')),
                     'where': sim.pick('edit_where', ('split', 'split', 'other'))}
@@ -519,7 +521,7 @@ def run_one(seed, cfg, stats):
             viol[0] = (r, len(bus.trace))
             bus.stop = True
 
-    bus = simulate(sim, pdesc, cfg, on_deliver, extra_topic=edit['topic'] if edit else None)
+    bus = simulate(sim, pdesc, cfg, on_deliver, extra_topic=edit['topic'] if edit else None, topics=topics)
     if viol[0] is None:
         r = judge.check(bus.trace)  # at shutdown
         count('prefixes_checked')
